@@ -43,6 +43,12 @@ Check (C20_lookup_right_of_valid : forall idx man a d,
          /\ alookup (dep_key d) a = Some w
          /\ satisfies (dreq d) w = true).
 
+Check (C20_lookup_right_any_order : forall idx man a d vs',
+  valid_solution idx man a = true -> edge idx man a d ->
+  (forall x, In x vs' <-> In x (vers_of a (dpkg d))) ->
+  exists w, find (matches_fix (dreq d)) vs' = Some w
+         /\ alookup (dep_key d) a = Some w /\ satisfies (dreq d) w = true).
+
 Check (C20_lookup_cur_iff_not_known : forall idx man a d w,
   valid_solution idx man a = true -> edge idx man a d -> alookup (dep_key d) a = Some w ->
   (index_dep_version matches_cur (index_packages a) d = Some w
@@ -82,6 +88,11 @@ Check (C20_pubgrub_contract_satisfiable :
 Check (C20_lock_no_crash : forall idx man a fuel,
   valid_solution idx man a = true ->
   ~ crashes (lock_new fuel matches_fix (Res idx (index_packages a)) man)).
+
+Check (C20_lock_new_ok : forall idx man a fuel,
+  valid_solution idx man a = true ->
+  (List.length (all_packages (Res idx (index_packages a))) < fuel)%nat ->
+  exists l, lock_new fuel matches_fix (Res idx (index_packages a)) man = Ok l).
 
 Check (C20_lock_no_crash_except_known : forall idx man a fuel,
   valid_solution idx man a = true ->
